@@ -10,9 +10,9 @@ META = {
                    'winding and the result is inside || on_edge; R17.3 cursor law: WindState::close re-seats the cursor from the subpath '
                    'start on every path, the closing edge runs cursor -> start, a LineTo adds the edge cursor -> point and then moves the '
                    'cursor, a LineTo without cursor starts a subpath; R17.4 WindState::add_edge, which touches its inputs only through comparisons and the sign of one cross product, is interpreted abstractly over all 81 orderings of the end points against the query point x every cross-product sign geometry allows: on_edge must be set exactly when the point is on the closed segment and the count must equal the leftward-ray crossing number under one half-open convention.',
-    'decides': ['R17.1 implicit close', 'R17.2 winding-rule table and result', 'R17.3 cursor law of WindState', 'R17.4 crossing logic of add_edge over the finite set of orderings'],
+    'decides': ['R17.1 implicit close', 'R17.2 winding-rule table and result', 'R17.3 cursor law of WindState', 'R17.4 crossing logic of add_edge over the finite set of orderings', 'R16.1/R16.2/R16.4 the flattened path it walks keeps ops, cursor law and winding'],
     'does_not_decide': ['agreement with fill on curved input (flattening tolerance)', 'float rounding of the side test'],
-    'assumptions': ['Path::flatten is correct (C16)'],
+    'assumptions': ['lyon_geom flattening accuracy (C16 does_not_decide)'],
 }
 
 CP = 'raqote::path_builder::Path::contains_point'
@@ -157,4 +157,13 @@ def run(ctx):
         r17_3(ctx, b, m)
     r17_2(ctx, b)
     import engine
-    engine.run_rules(ctx, [r17_4])
+    import props.c16 as c16
+    def flatten_rules(c):
+        fb = c.body(c16.FLATTEN, 'R16')
+        fm = c16.op_match(c, fb, 'R16.1', 'path_builder::Path::flatten')
+        if fm is not None:
+            c16.r16_1(c, fb, fm)
+            c16.r16_2(c, fb, fm)
+        c16.r16_4(c, fb)
+    flatten_rules.__name__ = 'r16_flatten'
+    engine.run_rules(ctx, [r17_4, flatten_rules])
